@@ -140,7 +140,9 @@ def run_case(rng, tier, res):
     ep = USBMultibyteStreamInEndpoint(byte_width=width, endpoint_number=epn, max_packet_size=mps)
     dev.add_endpoint(ep)
     with Registry(USBStreamInEndpoint) as reg:
-        b = Bench(dev, domain="usb", freq=60e6, max_cycles=120000)
+        # budget scales with the workload: a stream of one-word packets costs one IN transaction (~100 cycles, more with
+        # host retries and pauses) per word; a fixed 120000 was exhausted by a healthy 1241-packet case (seed 8)
+        b = Bench(dev, domain="usb", freq=60e6, max_cycles=120000 + 400 * len(words))
     inner_ep = reg.one(USBStreamInEndpoint)
     host = UTMIHost(b, utmi, rng, timing="fs12", ready_profile=ready_profile, gap_profile=rng.choice(["none", "none", "random"]))
 
